@@ -402,3 +402,162 @@ CANARIES = [
          new="                BioCantorFeatureTypes.EXON,\n                start,",
          case="TranscriptInterval.to_gff[1 exons, coding, chromosome]", expect="post:exon-rows-are-source-blocks"),
 ]
+
+
+# ---- bounded: export -> library parse-back (natively: the GFF3 parser needs gffutils' sqlite database) ---------------
+HOSTILE = ["plain", "semi;colon", "a=b", "100% sure", "tab\tin", "x>y&z", "two words", "café", "line\nbreak"]
+
+
+class ParseBack(Case):
+    """'Parsing the exported file returns, for every gene, the same exons, CDS blocks, frames, strand and identifiers
+    (ids, symbols, locus tag, biotypes, protein id, product, other qualifiers up to documented case-folding)':
+    AnnotationCollection.to_gff text written to a temporary file, read by the library's own parser
+    (gffutils.create_db with the parser's default arguments + io.gff3.parser._parse_genes - the step before the
+    marshmallow schema, which cannot be imported here), compared with the source model field by field.
+    Qualifier values avoid comma and double quote (excluded by the property's quantifier)."""
+    props = ("C11",)
+    proved = False
+    name = "bounded: GFF3 export read back by the library's parser (gffutils + _parse_genes)"
+    func = "io.gff3.parser._parse_genes"
+    scope = ("collections of 2 genes drawn from: 1-3 exon transcripts x both strands x {coding with start frame 0/1/2, "
+             "CDS a sub-interval of the exons; non-coding}, genes with 1-2 isoforms, identifiers present or absent, "
+             "qualifier keys in mixed case and values over a hostile alphabet (; = % tab > & space unicode newline)")
+    call = "_roundtrip(col)"
+    # known finding F-C11-1: the parser reads transcript_biotype (and transcript_name) from the GENE row
+    known = {"transcript-fields": dict(id="F-C11-1", carve=lambda i: any(
+        t["type"] != g["type"] for g in i.model for t in g["txs"]))}
+    ensures = {
+        "same-genes-in-order": lambda i, r: [g["gene_id"] for g in r] == [g["gene_id"] for g in i.model],
+        "gene-fields": lambda i, r: all(
+            (p["gene_id"], p["gene_symbol"], p["locus_tag"], p["gene_type"]) == (g["gene_id"], g["symbol"], g["locus_tag"], g["type"])
+            and _quals(p["qualifiers"]) == _fold(g["quals"]) for p, g in zip(r, i.model)),
+        "exons-cds-frames-strand": lambda i, r: all(
+            len(p["transcripts"]) == len(g["txs"]) and all(
+                (pt["exon_starts"], pt["exon_ends"], pt["strand"]) == ([a for a, _ in t["exons"]], [b for _, b in t["exons"]], g["strand"])
+                and (pt["cds_starts"], pt["cds_ends"], pt["cds_frames"]) == (
+                    ([a for a, _ in t["cds"]], [b for _, b in t["cds"]], t["frames"]) if t["cds"] else (None, None, None))
+                for pt, t in zip(_by_id(p["transcripts"]), _by_id(g["txs"], "tid")))
+            for p, g in zip(r, i.model)),
+        "transcript-fields": lambda i, r: all(
+            (pt["transcript_id"], pt["transcript_type"], pt["protein_id"], pt["product"]) == (t["tid"], t["type"], t["protein_id"], t["product"])
+            and (t["symbol"] is None or pt["transcript_symbol"] == t["symbol"])
+            for p, g in zip(r, i.model) for pt, t in zip(_by_id(p["transcripts"]), _by_id(g["txs"], "tid"))),
+        # children carry their parents' qualifiers in the file (documented), so a parsed transcript has the union
+        "transcript-qualifiers-are-own-plus-gene's": lambda i, r: all(
+            _quals(pt["qualifiers"]) == _merge(_fold(t["quals"]), _fold(g["quals"]))
+            for p, g in zip(r, i.model) for pt, t in zip(_by_id(p["transcripts"]), _by_id(g["txs"], "tid"))),
+    }
+
+    def inputs(self, S):
+        import os
+        import tempfile
+        from inscripta.biocantor.gene import (AnnotationCollection, GeneInterval, TranscriptInterval, CDSFrame, Biotype)
+        from inscripta.biocantor.gene.cds import CDSInterval
+        from inscripta.biocantor.location.strand import Strand
+        from inscripta.biocantor.location.location_impl import CompoundInterval, SingleInterval
+        model = S.const("genes")
+        genes = []
+        for g in model:
+            txs = []
+            for t in g["txs"]:
+                kw = {}
+                if t["cds"]:
+                    st = Strand[g["strand"]]
+                    cb = t["cds"]
+                    loc = (SingleInterval(cb[0][0], cb[0][1], st) if len(cb) == 1 else
+                           CompoundInterval([a for a, _ in cb], [b for _, b in cb], st))
+                    fr = CDSInterval.construct_frames_from_location(loc, CDSFrame[t["f0"]])
+                    t["frames"] = [f.name for f in fr]
+                    kw = dict(cds_starts=[a for a, _ in cb], cds_ends=[b for _, b in cb], cds_frames=fr)
+                txs.append(TranscriptInterval([a for a, _ in t["exons"]], [b for _, b in t["exons"]], Strand[g["strand"]],
+                                              transcript_id=t["tid"], transcript_symbol=t["symbol"],
+                                              transcript_type=Biotype[t["type"]], protein_id=t["protein_id"],
+                                              product=t["product"], qualifiers={k: list(v) for k, v in t["quals"]},
+                                              sequence_name="chr1", **kw))
+            genes.append(GeneInterval(txs, gene_id=g["gene_id"], gene_symbol=g["symbol"], locus_tag=g["locus_tag"],
+                                      gene_type=Biotype[g["type"]], qualifiers={k: list(v) for k, v in g["quals"]},
+                                      sequence_name="chr1"))
+        col = AnnotationCollection(genes=genes, sequence_name="chr1")
+
+        def _roundtrip(col):
+            import gffutils
+            gp = S.tolerant_module("io.gff3.parser")
+            text = "##gff-version 3\n" + "\n".join(str(r) for r in col.to_gff()) + "\n"
+            fd, path = tempfile.mkstemp(suffix=".gff3")
+            try:
+                os.write(fd, text.encode("utf-8"))
+                os.close(fd)
+                db = gffutils.create_db(path, ":memory:", **gp.GffutilsParseArgs().__dict__)
+                return gp._parse_genes("chr1", db)
+            finally:
+                os.unlink(path)
+
+        return NS(col=col, model=model, _roundtrip=_roundtrip)
+
+    def domain(self, tier):
+        layouts = [[(2, 23)], [(2, 11), (14, 23)], [(3, 12), (12, 24)], [(1, 8), (10, 20), (25, 40)]]
+        txs = []
+        k = 0
+        for bl in layouts:
+            for coding in (True, False):
+                for f0 in (("ZERO", "ONE", "TWO") if coding else ("ZERO",)):
+                    k += 1
+                    cds = None
+                    if coding:
+                        lo, hi = bl[0][0] + 1, bl[-1][1] - 1
+                        cds = [(max(a, lo), min(b, hi)) for a, b in bl if max(a, lo) < min(b, hi)]
+                    h = HOSTILE[k % len(HOSTILE)]
+                    txs.append(dict(exons=bl, cds=cds, f0=f0, tid=f"t{k}", symbol=(f"sym{k}" if k % 3 else None),
+                                    type="protein_coding" if coding else "lncRNA",
+                                    protein_id=(f"prot{k}" if coding and k % 2 else None),
+                                    product=(h if coding else None),
+                                    quals=[["Remark", [h]], [f"key{k % 4}", ["v1", HOSTILE[(k + 3) % len(HOSTILE)]]]],
+                                    frames=None))
+        genes = []
+        for j in range(0, len(txs) - 1, 2):
+            for strand in ("PLUS", "MINUS"):
+                # (identifiers in the file are content digests: every transcript gets its own id per gene)
+                a = dict(txs[j], tid=f"{txs[j]['tid']}a{strand[0]}")
+                a2 = dict(txs[j], tid=f"{txs[j]['tid']}b{strand[0]}")
+                b = dict(txs[j + 1], tid=f"{txs[j + 1]['tid']}b{strand[0]}")
+                # one single-isoform gene and one two-isoform gene per pair of layouts
+                gtype = a["type"]
+                genes.append(dict(gene_id=f"g{j}{strand[0]}", symbol=f"G{j}", locus_tag=(f"LT{j}" if j % 4 else None),
+                                  type=gtype, strand=strand, txs=[a],
+                                  quals=[["Gene_Key", [HOSTILE[j % len(HOSTILE)]]]]))
+                genes.append(dict(gene_id=f"h{j}{strand[0]}", symbol=None, locus_tag=f"LX{j}", type=a["type"], strand=strand,
+                                  txs=[a2, b], quals=[]))
+        pairs = [genes[k:k + 2] for k in range(0, len(genes) - 1, 2)]
+        if tier == "quick":
+            pairs = pairs[::2]
+        for p in pairs:
+            yield dict(genes=p)
+
+    def observe(self, r):
+        return [[g["gene_id"], [t["transcript_id"] for t in g["transcripts"]]] for g in r]
+
+
+def _fold(pairs):
+    """documented case-folding: non-reserved qualifier keys are written lower-cased; values are kept as sets"""
+    out = {}
+    for k, v in pairs:
+        out.setdefault(k.lower(), set()).update(str(x) for x in v)
+    return {k: sorted(v) for k, v in out.items()}
+
+
+def _quals(d):
+    return {k: sorted(v) for k, v in (d or {}).items()}
+
+
+def _merge(a, b):
+    out = {k: set(v) for k, v in a.items()}
+    for k, v in b.items():
+        out.setdefault(k, set()).update(v)
+    return {k: sorted(v) for k, v in out.items()}
+
+
+def _by_id(ts, key="transcript_id"):
+    return sorted(ts, key=lambda t: str(t[key]))
+
+
+CASES.append(ParseBack())
